@@ -103,6 +103,19 @@ def toy_lib_curve(t, G=None):
     return _toy_lib[k]
 
 
+def toy_lib_curve_legacy(t):
+    """Same as toy_lib_curve, but the generator handed to Curve() is an ellipticcurve.Point (affine, legacy class):
+    the verifier then takes its u1*G + u2*Q branch instead of mul_add."""
+    from ecdsa import curves as _c
+    k = (t.curve.key(), "legacy")
+    if k not in _toy_lib:
+        dom = t.domain()
+        cfp = lib.CurveFp(dom.curve.p, dom.curve.a, dom.curve.b, dom.h)
+        gen = lib.Point(cfp, dom.G[0], dom.G[1], dom.n)
+        _toy_lib[k] = (_c.Curve("toyL_p%d_a%d_b%d" % dom.curve.key(), cfp, gen, (1, 3, 132, 0, 254)), dom)
+    return _toy_lib[k]
+
+
 def toy_prime_curves(nmin, nmax, limit=None, want_n_lt_p=None, pmax=61):
     """Prime-order toy curves with nmin <= n <= nmax."""
     out = []
